@@ -17,6 +17,8 @@ def run(run):
                 'action sequence')
     run.assumptions = ['python_jsonschema_objects is trusted', 'handles identify Python objects (harness map)',
                        'documented naming policy "<name>:<id>" used as generation refinement only']
+    # regression corpus first (expected observations recomputed by TLC from the stored action sequences)
+    run.corpus_model()
     # (A) design level
     run.mc('MC_Model', 'MC_Model_A.cfg', env={'VERIF_LANG': 'LTiny', 'VERIF_MAXH': 3 if quick else 4},
            timeout=1500, name='assets+associations slice',
